@@ -102,7 +102,7 @@ PROPERTIES: dict[str, dict] = {
         "assumptions": COMMON_ASSUMPTIONS + ["numbers in TUCAN strings stay below the interpreter's integer-conversion limit"],
     },
     "C11": {
-        "rules": ["R-FLOW-PARSE", "R-BLISS", "R-FLOW-CANON", "R-FLOW-SERIAL", "R-BIJ", "R-KEYS", "R-REBUILD", "R-ATTRREAD", "R-GLOBAL", "R-CODEC", "R-REJECT", "R-PARSEPATH", "R-CANONPATH", "R-INVCODE"],
+        "rules": ["R-FLOW-PARSE", "R-BLISS", "R-FLOW-CANON", "R-FLOW-SERIAL", "R-BIJ", "R-KEYS", "R-REBUILD", "R-ATTRREAD", "R-GLOBAL", "R-CODEC", "R-REJECT", "R-PARSEPATH", "R-CANONPATH", "R-INVCODE", "R-LISTENSAMPLE"],
         "thorough_rules": ["R-LIBSRC"],
         "technique": "taint analysis of the parser listener composed with the C01 flow proof",
         "explanation": "Spelling (tuple order, orientation, repetition, block order) reaches the parsed graph only as insertion order; the pipeline is "
@@ -146,7 +146,7 @@ PROPERTIES: dict[str, dict] = {
         "assumptions": COMMON_ASSUMPTIONS,
     },
     "C16": {
-        "rules": ["R-CARRY", "R-LABELORDER", "R-SEED", "R-RETRY", "R-COPY", "R-BIJ", "R-EFFECT", "R-REBUILD"],
+        "rules": ["R-CARRY", "R-LABELORDER", "R-SEED", "R-RETRY", "R-COPY", "R-BIJ", "R-EFFECT", "R-REBUILD", "R-PERMSAMPLE"],
         "thorough_rules": ["R-LIBSRC"],
         "technique": "CFG dominance / must-pass-through rules + def-use tracing of the rebuilt graph's sources",
         "explanation": "The rebuilt graph takes nodes from nodes(data=True) in sorted label order and edges from edges(data=True); random.seed(<seed "
